@@ -142,3 +142,21 @@ Definition annotation_check (c : column_def) (ann : string) : bool :=
       else Bool.eqb (starts_with "Optional[" ann) (py_field_optional c)
   | _ => String.eqb ann (py_annotation c)
   end.
+
+(* class of the finding C17-seaorm-doc-comment-cr: the SeaORM exporter writes descriptions and comments line by line
+   behind `///` using str::lines(), which splits at \n and \r\n only: a carriage return that is not followed by a line
+   feed stays inside the doc-comment line, which rustc rejects ("bare CR not allowed in doc-comment") *)
+Fixpoint has_bare_cr (s : string) : bool :=
+  match s with
+  | EmptyString => false
+  | String a r =>
+      if Ascii.eqb a cr then
+        match r with
+        | String b r' => if Ascii.eqb b lf then has_bare_cr r' else true
+        | EmptyString => true
+        end
+      else has_bare_cr r
+  end.
+Definition known_C17_seaorm_doc_cr (t : table_def) : bool :=
+  (match t_description t with Some d => has_bare_cr d | None => false end
+   || existsb (fun c => match c_comment c with Some m => has_bare_cr m | None => false end) (t_columns t))%bool.
